@@ -243,23 +243,16 @@ def small_specs(draw, shapes=("matmul", "chain2", "matvec", "elementwise2"), bou
 
 
 def drive_unbiased(strategy, check, *, n, seed, col):
-    """drive() without shrinking (a shrink step costs several mapper runs) and without Hypothesis'
-    all-minimal first example, which with 2-3 examples per shard would be a large share of all cases."""
+    """drive() without shrinking (a shrink step costs several mapper runs), stopping at the first failure.
+    drive() itself skips Hypothesis' all-minimal first example; the example after it still avoids the minimal
+    value at its first choice point (measured: the first element of the first sampled_from came up 0 times
+    in 35), so a dummy leading draw absorbs that bias."""
     from vf.core import drive
 
-    state = {"skip": True}
-
-    def chk(desc, c):
-        if state.pop("skip", False):
-            return
-        check(desc, c)
-
+    unbiased = st.tuples(st.integers(0, 2 ** 16), strategy).map(lambda t: t[1])
     # max_failures=1: a failing shard stops at its first failure instead of re-running all its (expensive)
     # cases to look for further keys; the other shards keep searching independently
-    # Hypothesis' second example avoids the minimal value at its first choice point (measured: the first
-    # element of the first sampled_from came up 0 times in 35); a dummy leading draw absorbs that bias
-    unbiased = st.tuples(st.integers(0, 2 ** 16), strategy).map(lambda t: t[1])
-    drive(unbiased, chk, n=n + 1, seed=seed, col=col, shrink=False, max_failures=1)
+    drive(unbiased, check, n=n, seed=seed, col=col, shrink=False, max_failures=1)
 
 
 NSHARDS = {"quick": 8, "thorough": 16}   # import + numba JIT cost ~15 s per worker: few, fatter shards
